@@ -105,3 +105,8 @@ package criteria_concealment
 //@   property C18 C20
 //@   nopanic
 //@   ensures [name] result == "criteriaConcealment"
+
+//@ func newConcealedCriterionName
+//@   property C18 C07 C01 C09
+//@   ensures [base_name_then_count] result == (model.cntp(*criteria, "__concealedCriterion__", len(*criteria)) == 0 ? "__concealedCriterion__"
+//@             : "__concealedCriterion__" + itoa(model.cntp(*criteria, "__concealedCriterion__", len(*criteria))))
